@@ -275,6 +275,14 @@ def PartsGuard (p : NumberParts) : Prop :=
   (-((2 : Int) ^ 31) ≤ expInt p.exp ∧ expInt p.exp < (2 : Int) ^ 31 ∧
     (0 ≤ expInt p.exp → (p.intp.length : Int) + expInt p.exp - (partsLead p : Int) ≤ 20))
 
+theorem length_takeWhile_le {α} (q : α → Bool) (l : List α) : (l.takeWhile q).length ≤ l.length := by
+  induction l with
+  | nil => simp
+  | cons a t ih =>
+    by_cases h : q a = true
+    · rw [List.takeWhile_cons_of_pos h]; simp; omega
+    · rw [List.takeWhile_cons_of_neg h]; simp
+
 /-- `s` is `leadZeros s` zeros followed by something that does not start with a zero -/
 theorem leadZeros_split (s : Bytes) : s = List.replicate (leadZeros s) 0x30#8 ++ s.drop (leadZeros s) ∧
     (∀ c t, s.drop (leadZeros s) = c :: t → c ≠ 0x30#8) := by
@@ -449,7 +457,7 @@ theorem normalize_core (p : NumberParts) (hwf : PartsWF p) :
           have hleadle : partsLead p ≤ p.frac.length := by
             unfold partsLead leadZeros
             split
-            · exact List.length_takeWhile_le _ _
+            · exact length_takeWhile_le _ _
             · omega
           have hlead : (if p.intp.length = 0 then leadZeros p.frac else 0) = partsLead p := rfl
           simp only [hlead]
@@ -602,13 +610,13 @@ theorem partsExp_spec {e : Bytes} (he : ExpOpt e) : partsExp e = some (e.drop 1)
       have h1 := digit_ne_plus d hd
       have h2 := digit_ne_minus d hd
       simp only [List.nil_append, partsExp, if_pos he0, h1, h2, or_self, if_false, htw, List.drop_succ_cons,
-        List.drop_zero]
+        List.drop_zero, hd, if_true]
     | plus =>
       simp only [List.cons_append, List.nil_append, partsExp, if_pos he0, true_or, if_true, htw,
-        List.drop_succ_cons, List.drop_zero]
+        List.drop_succ_cons, List.drop_zero, hd]
     | minus =>
       simp only [List.cons_append, List.nil_append, partsExp, if_pos he0, or_true, if_true, htw,
-        List.drop_succ_cons, List.drop_zero]
+        List.drop_succ_cons, List.drop_zero, hd]
 
 theorem partsFrac_spec {f e : Bytes} (hf : FracOpt f) (he : ExpOpt e) : partsFrac (f ++ e) = (f.drop 1, e) := by
   cases hf with
@@ -693,13 +701,114 @@ theorem parseNumberParts_spec {m i f e : Bytes} (hm : MinusOpt m) (hi : IntPart 
 def LitValue (m i f e : Bytes) (v : Int) : Prop :=
   DecValue (!m.isEmpty) (natOfDigits (i ++ f.drop 1)) (expInt (e.drop 1) - (f.drop 1).length) v
 
-/-- the size guards of `normalizeToIntString` in terms of the literal: unless the literal is a zero
-(`0`, `0.000`, with any exponent) the exponent fits an int32 and, if non-negative,
-`(number of integer digits, 0 for "0") + exponent ≤ 20` -/
-def LitGuard (i f e : Bytes) : Prop :=
+/-- the one size guard that concerns values an integer field can hold: unless the literal is a zero
+(`0`, `0.000`, with any exponent) its exponent must fit an int32 (`strconv.ParseInt(exp, 10, 32)`); this
+only excludes literals with more than 2^31 - 20 digits -/
+def ExpGuard (i f e : Bytes) : Prop :=
   (i = [0x30#8] ∧ ∀ d ∈ f.drop 1, d = 0x30#8) ∨
-  (-((2 : Int) ^ 31) ≤ expInt (e.drop 1) ∧ expInt (e.drop 1) < (2 : Int) ^ 31 ∧
-    (0 ≤ expInt (e.drop 1) → ((if i = [0x30#8] then 0 else i.length : Nat) : Int) + expInt (e.drop 1) ≤ 20))
+  (-((2 : Int) ^ 31) ≤ expInt (e.drop 1) ∧ expInt (e.drop 1) < (2 : Int) ^ 31)
+
+/-- the same on parts -/
+def PartsExpGuard (p : NumberParts) : Prop :=
+  (p.intp = [] ∧ p.frac = []) ∨ (-((2 : Int) ^ 31) ≤ expInt p.exp ∧ expInt p.exp < (2 : Int) ^ 31)
+
+theorem PartsGuard.expGuard {p : NumberParts} (h : PartsGuard p) : PartsExpGuard p := by
+  rcases h with h | ⟨h1, h2, _⟩
+  · exact Or.inl h
+  · exact Or.inr ⟨h1, h2⟩
+
+/-- the mantissa has `len(intp) + len(frac) - lead` significant digits -/
+theorem partsM_ge {p : NumberParts} (hwf : PartsWF p) (hne : ¬ (p.intp = [] ∧ p.frac = [])) :
+    10 ^ (p.intp.length + p.frac.length - partsLead p - 1) ≤ partsM p := by
+  unfold partsM partsLead
+  by_cases hi : p.intp = []
+  · have hf : p.frac ≠ [] := fun hf => hne ⟨hi, hf⟩
+    rw [hi]; simp only [List.length_nil, if_true, List.nil_append, Nat.zero_add]
+    obtain ⟨hsplit, hhead⟩ := leadZeros_split p.frac
+    have hMnz : natOfDigits p.frac ≠ 0 := by
+      have := partsM_ne_zero hwf hne
+      unfold partsM at this; rwa [hi, List.nil_append] at this
+    cases hr : p.frac.drop (leadZeros p.frac) with
+    | nil =>
+      rw [hr, List.append_nil] at hsplit
+      rw [hsplit, natOfDigits_zeros] at hMnz; exact absurd rfl hMnz
+    | cons c t =>
+      have hc : isDigit c = true := hwf.frac c (List.mem_of_mem_drop (by rw [hr]; simp))
+      have hlen : p.frac.length = leadZeros p.frac + (t.length + 1) := by
+        have := congrArg List.length hsplit
+        rw [hr] at this; simpa using this
+      have hval : natOfDigits p.frac = natOfDigits (c :: t) := by
+        conv => lhs; rw [hsplit, hr]
+        exact natOfDigits_zeros_append _ _
+      rw [hval]
+      have := natOfDigits_ge_of_head (t := t) hc (hhead c t hr)
+      have he : p.frac.length - leadZeros p.frac - 1 = t.length := by omega
+      rw [he]; exact this
+  · obtain ⟨c, t, hct⟩ := List.exists_cons_of_ne_nil hi
+    have hc : isDigit c = true := hwf.intp c (by rw [hct]; simp)
+    have hl : p.intp.length ≠ 0 := by rw [hct]; simp
+    rw [if_neg hl, hct, List.cons_append]
+    have := natOfDigits_ge_of_head (t := t ++ p.frac) hc (hwf.intpHead c t hct)
+    simp only [List.length_cons, List.length_append] at this ⊢
+    have he : t.length + 1 + p.frac.length - 0 - 1 = t.length + p.frac.length := by omega
+    rw [he]; exact this
+
+/-- for a value below 10^20 (every value of an integer field) the digit guard cannot fire -/
+theorem partsGuard_of_small {p : NumberParts} (hwf : PartsWF p) {v : Int} (hv : PartsValue p v)
+    (hsmall : v.natAbs < 10 ^ 20) (hg : PartsExpGuard p) : PartsGuard p := by
+  rcases hg with hg | ⟨h1, h2⟩
+  · exact Or.inl hg
+  · by_cases hne : p.intp = [] ∧ p.frac = []
+    · exact Or.inl hne
+    · refine Or.inr ⟨h1, h2, fun hx0 => ?_⟩
+      have hM := partsM_ge hwf hne
+      -- the value is an integer, so the scale is not negative
+      have hk0 : 0 ≤ partsK p := by
+        by_cases hk : partsK p < 0
+        · exfalso
+          have hfne : p.frac ≠ [] := by
+            intro h; unfold partsK at hk; rw [h] at hk; simp at hk; omega
+          exact not_dvd_of_mod_ten (partsM_mod_ten hwf hfne) (by omega) (decValue_neg_dvd hk hv)
+        · omega
+      unfold PartsValue at hv
+      rw [decValue_nonneg hk0] at hv
+      have habs : v.natAbs = partsM p * 10 ^ (partsK p).toNat := by
+        rw [hv, Int.natAbs_mul, sgn_natAbs, Int.natAbs_pow]; rfl
+      have hleadle : partsLead p ≤ p.frac.length := by
+        unfold partsLead leadZeros
+        split
+        · exact length_takeWhile_le _ _
+        · omega
+      have hpos : 1 ≤ p.intp.length + p.frac.length - partsLead p := by
+        rcases Nat.lt_or_ge 0 p.intp.length with h | h
+        · omega
+        · -- no integer part: the fraction is not all zeros
+          have hi : p.intp = [] := List.length_eq_zero_iff.1 (by omega)
+          have hf : p.frac ≠ [] := fun hf => hne ⟨hi, hf⟩
+          obtain ⟨hsplit, _⟩ := leadZeros_split p.frac
+          have : partsLead p < p.frac.length := by
+            rcases Nat.lt_or_ge (partsLead p) p.frac.length with h' | h'
+            · exact h'
+            · exfalso
+              have hl : partsLead p = leadZeros p.frac := by unfold partsLead; rw [hi]; simp
+              have hdrop : p.frac.drop (leadZeros p.frac) = [] := List.drop_eq_nil_of_le (by omega)
+              rw [hdrop, List.append_nil] at hsplit
+              have hMz := partsM_ne_zero hwf hne
+              unfold partsM at hMz
+              rw [hi, List.nil_append, hsplit, natOfDigits_zeros] at hMz
+              exact hMz rfl
+          omega
+      unfold partsK at hk0
+      -- digits of the value: (ilen + flen - lead - 1) + K + 1 ≤ 20
+      have hpow : 10 ^ (p.intp.length + p.frac.length - partsLead p - 1 + (partsK p).toNat) ≤ v.natAbs := by
+        rw [habs, Nat.pow_add]; exact Nat.mul_le_mul_right _ hM
+      have hlt : p.intp.length + p.frac.length - partsLead p - 1 + (partsK p).toNat < 20 := by
+        rcases Nat.lt_or_ge (p.intp.length + p.frac.length - partsLead p - 1 + (partsK p).toNat) 20 with h | h
+        · exact h
+        · have := Nat.pow_le_pow_right (n := 10) (by decide) h
+          omega
+      unfold partsK at hlt
+      omega
 
 theorem fracDigits_all {f : Bytes} (hf : FracOpt f) : AllDigits (f.drop 1) := by
   cases hf with
@@ -754,10 +863,9 @@ theorem litParts_value {m i f e : Bytes} (hi : IntPart i) (v : Int) :
     omega
   rw [hk]
 
-theorem litParts_guard {m i f e : Bytes} (hi : IntPart i) (hf : FracOpt f) :
-    PartsGuard (litParts m i f e) ↔ LitGuard i f e := by
+theorem litParts_expGuard {m i f e : Bytes} (hi : IntPart i) (_hf : FracOpt f) :
+    PartsExpGuard (litParts m i f e) ↔ ExpGuard i f e := by
   obtain ⟨z, hz, _⟩ := trimRightZeros_spec (f.drop 1)
-  have hfd := fracDigits_all hf
   have hintp : (if i = [0x30#8] then ([] : Bytes) else i) = [] ↔ i = [0x30#8] := by
     cases hi with
     | zero => simp
@@ -774,16 +882,14 @@ theorem litParts_guard {m i f e : Bytes} (hi : IntPart i) (hf : FracOpt f) :
         have hmem : d ∈ f.drop 1 := by rw [hz, h']; simp
         obtain ⟨_, _, hl⟩ := trimRightZeros_spec (f.drop 1)
         exact absurd (h d hmem) (hl a d h')
-  have hlen : (litParts m i f e).intp.length = (if i = [0x30#8] then 0 else i.length) := by
-    simp only [litParts]; split <;> simp
-  unfold PartsGuard LitGuard
-  rw [hlen]
+  unfold PartsExpGuard ExpGuard
   simp only [litParts, hintp, hfrac]
 
-/-- `raw` is an RFC 8259 number literal that denotes the integer `v` and passes the size guards -/
+/-- `raw` is an RFC 8259 number literal that denotes the integer `v` (and its exponent fits an int32
+unless it is a zero) -/
 def IntLit (raw : Bytes) (v : Int) : Prop :=
   ∃ m i f e, raw = m ++ (i ++ (f ++ e)) ∧ MinusOpt m ∧ IntPart i ∧ FracOpt f ∧ ExpOpt e ∧
-    LitValue m i f e v ∧ LitGuard i f e
+    LitValue m i f e v ∧ ExpGuard i f e
 
 theorem IntLit.number {raw : Bytes} {v : Int} (h : IntLit raw v) : Number raw := by
   obtain ⟨m, i, f, e, rfl, hm, hi, hf, he, _, _⟩ := h
@@ -791,8 +897,8 @@ theorem IntLit.number {raw : Bytes} {v : Int} (h : IntLit raw v) : Number raw :=
 
 theorem getIntStr_core {m i f e : Bytes} (hm : MinusOpt m) (hi : IntPart i) (hf : FracOpt f) (he : ExpOpt e) :
     match getIntStr (m ++ (i ++ (f ++ e))) with
-    | none => ¬ ∃ v, LitValue m i f e v ∧ LitGuard i f e
-    | some s => ∃ v, LitValue m i f e v ∧ LitGuard i f e ∧ SpellsInt s v := by
+    | none => ¬ ∃ v, LitValue m i f e v ∧ PartsGuard (litParts m i f e)
+    | some s => ∃ v, LitValue m i f e v ∧ PartsGuard (litParts m i f e) ∧ SpellsInt s v := by
   unfold getIntStr
   rw [parseNumberParts_spec hm hi hf he]
   simp only [Option.bind_some]
@@ -802,14 +908,30 @@ theorem getIntStr_core {m i f e : Bytes} (hm : MinusOpt m) (hi : IntPart i) (hf 
     rw [hn] at hc
     simp only
     rintro ⟨v, hv, hg⟩
-    exact hc ⟨v, (litParts_value hi v).2 hv, (litParts_guard hi hf).2 hg⟩
+    exact hc ⟨v, (litParts_value hi v).2 hv, hg⟩
   | some s =>
     rw [hn] at hc
     obtain ⟨v, hv, hg, hs⟩ := hc
-    exact ⟨v, (litParts_value hi v).1 hv, (litParts_guard hi hf).1 hg, hs⟩
+    exact ⟨v, (litParts_value hi v).1 hv, hg, hs⟩
 
-/-- `Token.Int(bits)` on a number literal -/
-theorem tokenInt_iff (bits : Nat) (raw : Bytes) (hnum : Number raw) (v : Int) :
+theorem small_of_range_int {bits : Nat} (hb : bits ≤ 64) {v : Int}
+    (h : -((2 : Int) ^ (bits - 1)) ≤ v ∧ v < (2 : Int) ^ (bits - 1)) : v.natAbs < 10 ^ 20 := by
+  have hp : (2 : Int) ^ (bits - 1) ≤ (2 : Int) ^ 63 := by
+    have := Nat.pow_le_pow_right (n := 2) (by decide) (show bits - 1 ≤ 63 by omega)
+    exact_mod_cast this
+  have : (2 : Int) ^ 63 = 9223372036854775808 := by decide
+  omega
+
+theorem small_of_range_uint {bits : Nat} (hb : bits ≤ 64) {n : Nat} (h : (n : Int) < (2 : Int) ^ bits) :
+    (n : Int).natAbs < 10 ^ 20 := by
+  have hp : (2 : Int) ^ bits ≤ (2 : Int) ^ 64 := by
+    have := Nat.pow_le_pow_right (n := 2) (by decide) hb
+    exact_mod_cast this
+  have : (2 : Int) ^ 64 = 18446744073709551616 := by decide
+  omega
+
+/-- `Token.Int(bits)` on a number literal (`bits ≤ 64`: the digit guard never fires on a value in range) -/
+theorem tokenInt_iff (bits : Nat) (hb : bits ≤ 64) (raw : Bytes) (hnum : Number raw) (v : Int) :
     tokenInt bits raw = some v ↔
       IntLit raw v ∧ -((2 : Int) ^ (bits - 1)) ≤ v ∧ v < (2 : Int) ^ (bits - 1) := by
   constructor
@@ -828,13 +950,16 @@ theorem tokenInt_iff (bits : Nat) (raw : Bytes) (hnum : Number raw) (v : Int) :
       next hr =>
         have : w = v := Option.some.inj h
         subst this
-        exact ⟨⟨m, i, f, e, rfl, hm, hi, hf, he, hw, hgd⟩, hr⟩
+        exact ⟨⟨m, i, f, e, rfl, hm, hi, hf, he, hw, (litParts_expGuard hi hf).1 hgd.expGuard⟩, hr⟩
       next => cases h
   · rintro ⟨⟨m, i, f, e, rfl, hm, hi, hf, he, hv, hgd⟩, hr⟩
     have hc := getIntStr_core hm hi hf he
+    have hpg : PartsGuard (litParts m i f e) :=
+      partsGuard_of_small (litParts_wf hi hf he) ((litParts_value hi v).2 hv) (small_of_range_int hb hr)
+        ((litParts_expGuard hi hf).2 hgd)
     unfold tokenInt
     cases hg : getIntStr (m ++ (i ++ (f ++ e))) with
-    | none => rw [hg] at hc; exact absurd ⟨v, hv, hgd⟩ hc
+    | none => rw [hg] at hc; exact absurd ⟨v, hv, hpg⟩ hc
     | some s =>
       rw [hg] at hc
       obtain ⟨w, hw, _, hs⟩ := hc
@@ -844,7 +969,7 @@ theorem tokenInt_iff (bits : Nat) (raw : Bytes) (hnum : Number raw) (v : Int) :
       rw [parseIntBits_spells bits hs, if_pos hr]
 
 /-- `Token.Uint(bits)` on a number literal -/
-theorem tokenUint_iff (bits : Nat) (raw : Bytes) (hnum : Number raw) (n : Nat) :
+theorem tokenUint_iff (bits : Nat) (hb : bits ≤ 64) (raw : Bytes) (hnum : Number raw) (n : Nat) :
     tokenUint bits raw = some n ↔ IntLit raw (n : Int) ∧ (n : Int) < (2 : Int) ^ bits := by
   constructor
   · intro h
@@ -863,13 +988,16 @@ theorem tokenUint_iff (bits : Nat) (raw : Bytes) (hnum : Number raw) (n : Nat) :
         have : w.toNat = n := Option.some.inj h
         have hwn : w = (n : Int) := by omega
         subst hwn
-        exact ⟨⟨m, i, f, e, rfl, hm, hi, hf, he, hw, hgd⟩, hr.2⟩
+        exact ⟨⟨m, i, f, e, rfl, hm, hi, hf, he, hw, (litParts_expGuard hi hf).1 hgd.expGuard⟩, hr.2⟩
       next => cases h
   · rintro ⟨⟨m, i, f, e, rfl, hm, hi, hf, he, hv, hgd⟩, hr⟩
     have hc := getIntStr_core hm hi hf he
+    have hpg : PartsGuard (litParts m i f e) :=
+      partsGuard_of_small (litParts_wf hi hf he) ((litParts_value hi _).2 hv) (small_of_range_uint hb hr)
+        ((litParts_expGuard hi hf).2 hgd)
     unfold tokenUint
     cases hg : getIntStr (m ++ (i ++ (f ++ e))) with
-    | none => rw [hg] at hc; exact absurd ⟨_, hv, hgd⟩ hc
+    | none => rw [hg] at hc; exact absurd ⟨_, hv, hpg⟩ hc
     | some s =>
       rw [hg] at hc
       obtain ⟨w, hw, _, hs⟩ := hc
